@@ -213,6 +213,44 @@ def parseDR (t : String) : Option DRule × String :=
     (some { top := top, subsets := subs }, if sel == "-" then "" else sel)
   | _ => (some { top := some { tls := DRMode.ofTok t, ports := [] }, subsets := [] }, "")
 
+/-- Op `cl` / `hc`: the composed client decision end to end (CDS + EDS on the client, LDS on the server). -/
+def clLine (s : DState) (ns labels clientNs kind port : String) : String :=
+  -- the composed client decision end to end (CDS + EDS on the client, LDS on the server), one HTTP service on
+  -- `port` (service port 81 has TARGET port 8081)
+  let w : Workload := { ns := dec ns, labels := parseLabels labels }
+  let p := port.toNat?.getD 80
+  let tp := if p == 81 then 8081 else p
+  let view := sidecarView s.root s.pas (dec clientNs) [w.ns]
+  let external := kind == "external"
+  let passthrough := kind == "passthrough" || kind == "ptdisabled" || kind == "ptnoistio" || kind == "drpassthrough" || kind == "drptdisabled"
+  let epDisabled := kind == "ptdisabled" || kind == "drptdisabled" || kind == "ptnoistio"
+  let be := bestEffortFull view w.ns external passthrough [epDisabled]
+  -- an explicit DestinationRule TLS mode (rule level, or of the selected subset, or the rule level a subset
+  -- without TLS settings falls back to) decides both the cluster socket and the endpoint label
+  let dr : Option DRMode :=
+    if kind == "drdisable" || kind == "drsubsetdisable" then some .disable
+    else if kind == "dristio" || kind == "drsubsetfallback" then some .istioMutual else none
+  let c := match dr with
+    | some m => m == .istioMutual
+    | none => !external && kind != "noauto" && clusterHasAutoMTLS be   -- noauto: MeshConfig.enableAutoMtls = false
+  let noEds := passthrough   -- resolution NONE / PASSTHROUGH load balancer: an ORIGINAL_DST cluster, no EDS endpoints
+  let sidecar := kind != "noistio" && kind != "k8snoistio" && !epDisabled   -- k8s / k8snoistio: a Kubernetes Service + pod
+  let e := if noEds then "-" else boolTok (checkMtlsEnabledIn view dr sidecar w tp)
+  let sv := joinOrDash (sortStrings (((inboundChains s.root s.pas w [{ port := p, target := tp, proto := .http }]).filter
+    (fun c => c.dst == some tp)).map LChain.show))
+  -- X: the transport socket Envoy selects for the endpoint is TLS (first matching transport socket match)
+  let x := if noEds then "-" else
+    match dr with
+    | some m => boolTok (m == .istioMutual)
+    | none => boolTok (c && checkMtlsEnabledIn view none sidecar w tp)
+  -- kind `two:<labels>`: a second endpoint with labels of its own, one decision per endpoint
+  if kind.startsWith "two:" then
+    let w2 : Workload := { ns := w.ns, labels := parseLabels (kind.drop 4).toString }
+    let e2 := boolTok (checkMtlsEnabledIn view dr true w2 tp)
+    let x2 := boolTok (c && checkMtlsEnabledIn view none true w2 tp)
+    s!"C={boolTok c} E={e}{e2} X={x}{x2} BE={be.tok} S={sv}"
+  else s!"C={boolTok c} E={e} X={x} BE={be.tok} S={sv}"
+
 def step (s : DState) (toks : List String) : DState × String :=
   match toks with
   | "case" :: _ :: _ :: root :: fx :: _ => ({ root := dec root, pas := [], fx := parseFx fx }, "ok")
@@ -263,36 +301,12 @@ def step (s : DState) (toks : List String) : DState × String :=
   | ["il", ns, labels] =>
     let w : Workload := { ns := dec ns, labels := parseLabels labels }
     (s, showInbound s.root s.pas w [] false)
-  | ["cl", ns, labels, clientNs, kind, port] =>
-    -- the composed client decision end to end (CDS + EDS on the client, LDS on the server), one HTTP service on
-    -- `port` (service port 81 has TARGET port 8081)
-    let w : Workload := { ns := dec ns, labels := parseLabels labels }
-    let p := port.toNat?.getD 80
-    let tp := if p == 81 then 8081 else p
-    let view := sidecarView s.root s.pas (dec clientNs) [w.ns]
-    let external := kind == "external"
-    let passthrough := kind == "passthrough" || kind == "ptdisabled" || kind == "ptnoistio" || kind == "drpassthrough" || kind == "drptdisabled"
-    let epDisabled := kind == "ptdisabled" || kind == "drptdisabled" || kind == "ptnoistio"
-    let be := bestEffortFull view w.ns external passthrough [epDisabled]
-    -- an explicit DestinationRule TLS mode (rule level, or of the selected subset, or the rule level a subset
-    -- without TLS settings falls back to) decides both the cluster socket and the endpoint label
-    let dr : Option DRMode :=
-      if kind == "drdisable" || kind == "drsubsetdisable" then some .disable
-      else if kind == "dristio" || kind == "drsubsetfallback" then some .istioMutual else none
-    let c := match dr with
-      | some m => m == .istioMutual
-      | none => !external && kind != "noauto" && clusterHasAutoMTLS be   -- noauto: MeshConfig.enableAutoMtls = false
-    let noEds := passthrough   -- resolution NONE / PASSTHROUGH load balancer: an ORIGINAL_DST cluster, no EDS endpoints
-    let sidecar := kind != "noistio" && kind != "k8snoistio" && !epDisabled   -- k8s / k8snoistio: a Kubernetes Service + pod
-    let e := if noEds then "-" else boolTok (checkMtlsEnabledIn view dr sidecar w tp)
-    let sv := joinOrDash (sortStrings (((inboundChains s.root s.pas w [{ port := p, target := tp, proto := .http }]).filter
-      (fun c => c.dst == some tp)).map LChain.show))
-    -- X: the transport socket Envoy selects for the endpoint is TLS (first matching transport socket match)
-    let x := if noEds then "-" else
-      match dr with
-      | some m => boolTok (m == .istioMutual)
-      | none => boolTok (c && checkMtlsEnabledIn view none sidecar w tp)
-    (s, s!"C={boolTok c} E={e} X={x} BE={be.tok} S={sv}")
+  | ["cl", ns, labels, clientNs, kind, port] => (s, clLine s ns labels clientNs kind port)
+  | ["hc", ns, labels, clientNs, kind, port] =>
+    -- the same reading on a world that lives through the edits of the case: every component follows every edit
+    (s, clLine s ns labels clientNs kind port)
+  | ["pd", i] =>
+    ({ s with pas := s.pas.eraseIdx (i.toNat?.getD s.pas.length) }, "ok")
   | ["ilh", ns, labels] =>
     let w : Workload := { ns := dec ns, labels := parseLabels labels }
     (s, s!"{showInbound s.root s.pas w [] false} {showHbone s.root s.pas w (chainConfigs inboundSvcPorts [] false)}")
